@@ -61,7 +61,11 @@ GlobM == <<"glob", 0, <<>>>>     \* declared global in this function
 NonlM == <<"nonl", 0, <<>>>>     \* declared nonlocal in this function
 IsVal(v) == v[1] \notin {"unb", "absent", "glob", "nonl"}
 
+\* <<"box", k, <<>>>> is a mutable object whose truthiness changes over time: it is
+\* true while effect site k has been called an even number of times.  (It lets
+\* programs tell "the value was tested now" from "the value was tested later".)
 Truthy(v) == CASE v[1] = "none" -> FALSE
+               [] v[1] = "box" -> calls[v[2]] % 2 = 0
                [] v[1] \in {"bool", "int"} -> v[2] # 0
                [] v[1] \in {"list", "tuple", "str"} -> (v[1] = "str" /\ v[2] # 0) \/ Len(v[3]) > 0
                [] OTHER -> TRUE
@@ -213,7 +217,7 @@ AllNumeric(s) == \A i \in 1..Len(s) : Numeric(s[i])
 AllTag(s, tag) == \A i \in 1..Len(s) : s[i][1] = tag
 RECURSIVE Concat(_)
 Concat(s) == IF s = <<>> THEN <<>> ELSE Head(s)[3] \o Concat(Tail(s))
-Identity(v) == v[1] \in {"fn", "exc", "cm"}    \* compared by identity in Python
+Identity(v) == v[1] \in {"fn", "exc", "cm", "box"}    \* compared by identity in Python
 RECURSIVE HasIdentity(_)
 HasIdentity(v) == Identity(v) \/ \E i \in 1..Len(v[3]) : HasIdentity(v[3][i])
 \* one binary + : numbers add, lists / tuples concatenate, str + str is outside
